@@ -47,6 +47,11 @@ def gen_cases(chk):
                 if ES[ty] > 1 and de == 0:
                     cases.append("rw %x %x 1 %s" % (ty, de, hexl(l)))
             cases.append("rw %x %x 2 _" % (ty, de))
+            if ty in (0, 1, 2) and de == 0:
+                # the Fortran-callable readers (float, double, bytes): on a file written by the binary writer, and on a missing file
+                for n in (1, 8, 41, 1000):
+                    cases.append("rw %x %x 4 %s" % (ty, de, hexl(patterns(ty, rng, n))))
+                cases.append("rw %x %x 5 %s" % (ty, de, hexl(patterns(ty, rng, 8))))
             # the same file read 120 times by a process that may open only two dozen more files
             cases.append("rw %x %x 3 %s" % (ty, de, hexl(patterns(ty, rng, 41))))
     return cases
@@ -63,6 +68,10 @@ def oracle(case, out):
     if mode == 3:
         if d.get("iter") != "0":
             return "read number %s of the same well-formed file failed (status %s, %s elements) in a process allowed 24 more descriptors" % (d.get("iter"), d.get("st_r"), d.get("n"))
+        return None
+    if mode == 5:
+        if d.get("n") != "0":
+            return "a Fortran-callable reader reports %s elements for a missing file" % d.get("n")
         return None
     if mode == 2:
         if d.get("st_r") != "-2" or d.get("null") != "1":
@@ -86,8 +95,8 @@ def run(chk):
     tmp = lib.scratch("szv-rw-")
     io = lib.run_cases(exe, cases, env={"SZV_TMP": tmp}, timeout=1800)
     # the model has no notion of descriptors: the fds= field and the repeated-read cases (mode 3) are the oracle's alone
-    mcases = [c for c in cases if c.split(" ")[3] != "3"]
-    mio = [" ".join(t for t in r.split(" ") if not t.startswith("fds=")) for c, r in zip(cases, io) if c.split(" ")[3] != "3"]
+    mcases = [c for c in cases if c.split(" ")[3] not in ("3", "4", "5")]
+    mio = [" ".join(t for t in r.split(" ") if not t.startswith("fds=")) for c, r in zip(cases, io) if c.split(" ")[3] not in ("3", "4", "5")]
     mo = lib.run_cases(model, mcases, timeout=1800)
     bad = chk.compare(mcases, mo, mio, lambda c, m, r: not c.endswith("_"))
     nfail = 0
